@@ -188,7 +188,19 @@ def put_and_readback(seed, n=14, utf8_only=False, alphabet_paths=None, td=None):
         while k < len(entries):
             batch = entries[k:k + rnd.choice([1, 2, 5])]
             k += len(batch)
-            res = box.run('trash-put', td_args + ['--'] + [e['path'] for e in batch], now=now)
+            if len(batch) >= 2 and rnd.random() < 0.4:
+                # one argument is named through a symlink kept in ANOTHER argument's directory: 'dir(e1)/.lnk/../name' is
+                # dir(e2)/name for the file system (and dir(e1)/name for whoever collapses '..' lexically)
+                e1, e2 = batch[0], batch[1]
+                d1, d2 = os.path.dirname(e1['path']), os.path.dirname(e2['path'])
+                try:
+                    if d1 != d2 and not os.path.lexists(d1 + b'/.lnk') and not os.path.lexists(d2 + b'/.sub'):
+                        os.mkdir(d2 + b'/.sub')
+                        os.symlink(d2 + b'/.sub', d1 + b'/.lnk')
+                        e2['arg'] = d1 + b'/.lnk/../' + os.path.basename(e2['path'])
+                except OSError:
+                    pass
+            res = box.run('trash-put', td_args + ['--'] + [e.get('arg', e['path']) for e in batch], now=now)
             for e in batch:
                 e['put_exit'] = res['exit']
                 e['put_err'] = res['stderr'][-300:].decode('utf-8', 'replace')
